@@ -76,11 +76,29 @@ def every_position_lines(rng, thorough, states):
     return out
 
 
+def length_field_lines(rng, thorough, states):
+    """every length field of the captured handshake datagrams set to the values a parser is most likely to trip over: 0, 1, the
+    largest, the values whose sum with a few bytes of headroom passes the 65535-byte buffer, the sign bit.  They are read before
+    anything is verified."""
+    out = []
+    values = [0, 1, 2, 0x7fff, 0x8000, 0xff00, 0xfff0, 0xfff7, 0xfff8, 0xfff9, 0xfffb, 0xfffc, 0xfffd, 0xfffe, 0xffff]
+    for state in states:
+        for k in (0, 1, 2):
+            s = setup(rng, state)
+            s.add("S.1")
+            for part in range(0, 6):
+                for v in (values if thorough else sorted(set(rng.sample(values, 5) + [0xfff8, 0xffff]))):
+                    s.add("I.%d.1.%d.%d.%d" % (k, rng.choice([2, 2, OUTSIDER]), part, v), "S.1")
+            closing_probe(s, state)
+            out.append(s.line())
+    return out
+
+
 class C08(Property):
     id = "C08"
     rule = ("receiver (mock node 1) in the states {unknown sender, pending as initiator, pending as responder, established with / without "
             "lingering handshake object, closing}; datagrams of every length 0..80 with structured first bytes (0xff marker, key ids, "
-            "message types) and random bodies, random datagrams up to 65435 bytes, every truncation and bit flips of captured genuine "
+            "message types) and random bodies, random datagrams up to 65435 bytes, every truncation, bit flips and length fields set to boundary values in captured genuine "
             "handshake / node-info / rotation / data datagrams sent from the original, another and an unknown address, sequences of up to "
             "50 such datagrams; after each injection the state dump must equal the dump before except for the invalid-traffic counter; "
             "non-trivial = distinct scenario with at least 10 injected datagrams reaching an established or pending entry")
@@ -142,6 +160,9 @@ class C08(Property):
         # (d) every byte position of the captured handshake datagrams
         out += every_position_lines(rng, thorough, ["unknown", "pending_initiator", "pending_responder", "established_lingering"]
                                     + (["established", "closing"] if thorough else []))
+        # (d') every length field of the captured handshake datagrams set to boundary values
+        out += length_field_lines(rng, thorough, ["unknown", "pending_initiator", "pending_responder", "established_lingering"]
+                                  + (["established", "closing"] if thorough else []))
         # (e) verbatim replays of genuine handshake datagrams of OTHER exchanges into pending handshakes, each twice:
         #     they verify (genuine signature) but belong to another key exchange; no dump-equality demand, only no panic
         #     and agreement with the model
@@ -211,11 +232,11 @@ class C08(Property):
         return "alive" if self._plain(line) else out
 
     def nontrivial(self, line, impl_out):
-        return sum(1 for t in line.split() if t[0] in "WFUJ") >= 10
+        return sum(1 for t in line.split() if t[0] in "WFUJI") >= 10
 
     def tag(self, line, impl_out):
         ops = line.split()
-        kinds = "".join(sorted(set(t[0] for t in ops if t[0] in "WFUJ")))
+        kinds = "".join(sorted(set(t[0] for t in ops if t[0] in "WFUJI")))
         d = [t for t in impl_out.split() if t.startswith("peers=")]
         st = "?"
         if d:
@@ -237,7 +258,7 @@ class C08(Property):
             if o.startswith("S.1"):
                 cur = re.sub(r";inv=\d+", "", r)
                 prev_op = ops[i - 1] if i else ""
-                if last_dump is not None and prev_op[:1] in ("W", "F", "U") and cur != last_dump:
+                if last_dump is not None and prev_op[:1] in ("W", "F", "U", "I") and cur != last_dump:
                     # a verbatim genuine datagram (truncation to full length / flip out of range) is not an outsider datagram
                     if outs[i - 1] == "nodg":
                         pass
@@ -253,7 +274,7 @@ class C08(Property):
                 if w1 == "w-" or w2 == "w-":
                     return ("a few ticks after the rejected datagrams payload no longer flows on the established connection "
                             "(interface of node 1 got %s, of node 2 got %s): they left state behind in the connection" % (w1[:12], w2[:12]))
-            if o[:1] in ("W", "F") and nu.emissions(r.replace("zc~", "")):
+            if o[:1] in ("W", "F", "I") and nu.emissions(r.replace("zc~", "")):
                 return "datagram that cannot verify (%s) was answered with %s" % (o[:60], r)
         return None
 
